@@ -310,7 +310,11 @@ class KeyqueueTrie:
                 raise MoreInputRequired()
             return None
 
-        (b, x, y) = (int(val) for val in value[:-1].split(";"))
+        fields = value[:-1].split(";")
+        if len(fields) != 3 or not all(field.isascii() and field.isdigit() for field in fields):
+            # malformed report (non-numeric field, wrong number of fields): not a known sequence
+            return None
+        (b, x, y) = (int(val) for val in fields)
         action = value[-1]
         # Double and triple clicks are not supported.
         # They can be implemented by using a timer.
